@@ -203,7 +203,7 @@ Section C17.
 
   Lemma ckc_push_from_cache o c : cache_keep_or_clear o (fst (push_from_cache E o c)).
   Proof.
-    unfold push_from_cache. destruct (nb_block o =? 0); [apply ckc_refl|].
+    unfold push_from_cache. destruct (cache_replay_blocked o); [apply ckc_refl|].
     destruct (drain_cache_clears (List.rev (r_cache o)) o c) as [D1 D2].
     { intros H. apply (f_equal (@List.rev apkt)) in H. rewrite rev_involutive in H. exact H. }
     destruct (drain_cache E (List.rev (r_cache o)) o c) as [o1 c1]. cbn [fst] in *.
